@@ -297,7 +297,7 @@ theorem ch_connectionFailed (s : Sess) : Ch s s.connectionFailed := by
   split
   · exact (((same_setRetry s _).ch.trans (ch_closeConn _)).trans (same_setSt _ _).ch).trans (same_connectionClosed _ _).ch
   · exact ((same_setRetry s _).trans (same_setSt _ _)).ch
-  · exact (((ch_closeConn s).trans (same_setRetry _ _).ch).trans (same_setSt _ _).ch).trans (same_connectionClosed _ _).ch
+  · exact ((((ch_closeConn s).trans (same_setRetry _ _).ch).trans (same_setHold _ _).ch).trans (same_setSt _ _).ch).trans (same_connectionClosed _ _).ch
   · exact ch_errorClose s
   · exact ch_errorClose s
   · exact Ch.refl s
@@ -310,7 +310,7 @@ theorem st_connectionFailed (s : Sess) : ¬ inSession s.connectionFailed.st := b
     · exact not_inSession_idle
     · exact not_inSession_connect
   · simp; exact not_inSession_idle
-  · rcases st_connectionClosed (((s.closeConn).setRetry (some s.retryDeadline)).setSt .active) s.proto with h | h | h <;> rw [h]
+  · rcases st_connectionClosed ((((s.closeConn).setRetry (some s.retryDeadline)).setHold none).setSt .active) s.proto with h | h | h <;> rw [h]
     · simp; exact not_inSession_active
     · exact not_inSession_idle
     · exact not_inSession_connect
@@ -386,8 +386,8 @@ theorem inv_fsmUpdateReceived {s : Sess} (h : SessInv s) : SessInv s.fsmUpdateRe
   · exact h
 
 theorem inv_fsmNotificationReceived {s : Sess} (h : SessInv s) (e sub : Nat) : SessInv (s.fsmNotificationReceived e sub) := by
-  have hidle : ∀ t : Sess, DiscClosed t → SessInv (((t.setRetry none).closeConn).setSt .idle) := fun t ht =>
-    SessInv.of_ch ht (((same_setRetry t _).ch.trans (ch_closeConn _)).trans (same_setSt _ _).ch)
+  have hidle : ∀ t : Sess, DiscClosed t → SessInv (((((t.setRetry none).setHold none).setKeepalive none).closeConn).setSt .idle) := fun t ht =>
+    SessInv.of_ch ht (((((same_setRetry t _).trans (same_setHold _ _)).trans (same_setKeepalive _ _)).ch.trans (ch_closeConn _)).trans (same_setSt _ _).ch)
       (by simp; exact not_inSession_idle)
   unfold fsmNotificationReceived
   split
